@@ -12,6 +12,11 @@ reps = [prove.generate(E, t) for t in targets]
 for r in reps:
     if getattr(r, "fault", None): print("FAULT", r.target); print(r.fault)
     if r.unbound: print("UNBOUND", r.target, r.unbound)
+import re
+only = os.environ.get('PYVC_ONLY')
+if only:
+    for r in reps:
+        r.obligations = [o for o in r.obligations if re.search(only, o.name)]
 t0 = time.time()
 prove.discharge(E, reps)
 for r in reps:
